@@ -427,8 +427,111 @@ def run(chk: Check) -> None:
     chk.floor("R15.3", "destructuring / pop sites", n_d, 2)
     bracket_matching(chk, "R15.4")
     _remainder(chk, f, inner)
+    for g_ in inner.values():
+        names_are_not_delimiters(chk, "R15.7", g_)
     from .purity import codec_state
     codec_state(chk, "R15.5")
+
+
+def names_are_not_delimiters(chk: Check, rule: str, g) -> None:
+    """a token becomes the name of a tree node only where it is known not to be one of the three
+    delimiters: the tests that dominate ``SubtypeTree(tok, ...)`` exclude '<', '>' and ',' for
+    ``tok`` (tested under its own name or as ``L[0]`` of the list it was unpacked from; against a
+    display, a string or a constant set bound in an enclosing scope)"""
+    cfg = CFG(g.node)
+    DEL = {"<", ">", ","}
+    scopes = []
+    cur = g
+    while cur is not None:
+        scopes.append(cur)
+        cur = cur.outer
+
+    def container(e: ast.AST, depth: int = 0) -> Optional[Set[str]]:
+        try:
+            v = ast.literal_eval(e)
+            if isinstance(v, str):
+                return set(v)
+            return {x for x in v if isinstance(x, str)}
+        except Exception:
+            pass
+        if isinstance(e, ast.Call) and isinstance(e.func, ast.Name) and e.func.id in ("frozenset", "set", "tuple", "list") \
+                and len(e.args) == 1 and not e.keywords:
+            return container(e.args[0], depth + 1)
+        if isinstance(e, ast.Name) and depth < 3:
+            for sc in scopes:
+                binds = [x for x in walk_no_nested(sc.node) if isinstance(x, (ast.Assign, ast.AnnAssign)) and x.value is not None
+                         and any(isinstance(t_, ast.Name) and t_.id == e.id
+                                 for t_ in (x.targets if isinstance(x, ast.Assign) else [x.target]))]
+                if len(binds) == 1:
+                    return container(binds[0].value, depth + 1)
+                if binds:
+                    return None
+            m_ = g.module
+            for st in m_.tree.body:
+                if isinstance(st, ast.Assign) and any(isinstance(t_, ast.Name) and t_.id == e.id for t_ in st.targets):
+                    return container(st.value, depth + 1)
+        return None
+    n_sites = 0
+    for n in walk_no_nested(g.node):
+        tok = None
+        if isinstance(n, ast.Call) and (dotted(n.func) or ("",))[-1] == "SubtypeTree" and n.args \
+                and isinstance(n.args[0], ast.Name):
+            tok = n.args[0].id
+        if tok is None:
+            continue
+        n_sites += 1
+        # other spellings of the token: L[0] when ``tok, *rest = L``
+        same: List[str] = [tok]
+        for x in walk_no_nested(g.node):
+            if isinstance(x, ast.Assign) and len(x.targets) == 1 and isinstance(x.targets[0], (ast.Tuple, ast.List)) \
+                    and x.targets[0].elts and isinstance(x.targets[0].elts[0], ast.Name) and x.targets[0].elts[0].id == tok \
+                    and isinstance(x.value, ast.Name):
+                same.append("%s[0]" % x.value.id)
+            if isinstance(x, ast.Assign) and len(x.targets) == 1 and isinstance(x.targets[0], ast.Name) \
+                    and x.targets[0].id == tok and isinstance(x.value, ast.Subscript):
+                same.append(unparse(x.value))
+        in_comp = any(isinstance(c_, (ast.GeneratorExp, ast.ListComp, ast.SetComp, ast.DictComp)) and any(n is y for y in ast.walk(c_))
+                      for c_ in walk_no_nested(g.node))
+        excluded: Set[str] = set()
+        unknown = in_comp
+
+        def learn(t: ast.AST, v: bool) -> None:
+            nonlocal unknown
+            if isinstance(t, ast.UnaryOp) and isinstance(t.op, ast.Not):
+                learn(t.operand, not v)
+                return
+            if isinstance(t, ast.BoolOp):
+                if (isinstance(t.op, ast.Or) and not v) or (isinstance(t.op, ast.And) and v):
+                    for x in t.values:
+                        learn(x, v)
+                return
+            if not (isinstance(t, ast.Compare) and len(t.ops) == 1):
+                return
+            l_, r_ = unparse(t.left), unparse(t.comparators[0])
+            op = t.ops[0]
+            if isinstance(op, (ast.In, ast.NotIn)) and l_ in same:
+                if isinstance(op, ast.In) != v:
+                    cs = container(t.comparators[0])
+                    if cs is None:
+                        unknown = True
+                    else:
+                        excluded.update(cs & DEL)
+            elif isinstance(op, (ast.Eq, ast.NotEq)) and (l_ in same or r_ in same):
+                other = t.comparators[0] if l_ in same else t.left
+                c0 = const_str(other)
+                if c0 in DEL and isinstance(op, ast.Eq) != v:
+                    excluded.add(c0)
+        try:
+            for t, v in cfg.facts_at(cfg.node_of(n)):
+                learn(t, v)
+        except AnalysisError:
+            continue
+        missing = sorted(DEL - excluded)
+        chk.ob(rule, "%s:name-is-not-a-delimiter(%s)" % (g.qualname, unparse(n)[:30]), not missing, g.loc(n),
+               "%s makes the token %s the name of a type although nothing rules out that it is %s: a string "
+               "with a delimiter in a name position is accepted" % (g.qualname, tok, " or ".join(repr(m_) for m_ in missing)), 3,
+               undecided=bool(missing) and unknown)
+    chk.extra["name_sites_in_parse"] = n_sites
 
 
 def _is_empty_test(t: ast.AST, lst: str) -> bool:
